@@ -383,3 +383,19 @@ def run(ctx, rep):
     # upserts assign every column, unconditionally, keyed by the primary key (shared with C10 / C18)
     rep.clause("C02.5c the message / processed-message upserts replace the stored row completely and unconditionally")
     sqlrules.clause_upserts(prog, rep, sqlmod.Schema(), sites, only_tables={"messages", "processed_messages"})
+    # stored messages survive a rollback: no statement of the SQLite restore writes (directly or through a cascade) the messages /
+    # processed_messages tables (the frame clause of C09, for the rollback statements)
+    rep.clause("C02.5d the SQLite rollback neither writes nor cascades into the stored messages and their processed records")
+    import os
+    import sys
+    sys.path.insert(0, os.path.dirname(os.path.abspath(__file__)))
+    import c09
+    sub = type(rep)(rep.prop, rep.tier, rep.seed)
+    sub.config = rep.config
+    c09.clause_sqlite(prog, sub, sqlmod.Schema(), sites)
+    n = 0
+    for o in sub.obligations:
+        if o["rule"] in ("frame", "sql-cascade") and ("/rollback/" in o["key"] or o["rule"] == "sql-cascade"):
+            rep.obligations.append(dict(o, rule="stored-messages-survive-rollback", key=o["key"].replace("/%s/" % o["rule"], "/stored-messages-survive-rollback/")))
+            n += 1
+    rep.floor("stored-messages-survive-rollback", "rollback statements / cascade edges examined", n, 10)
